@@ -11,6 +11,7 @@ tree it printed (`TextLayer.ExactOn`), and the correspondence run measures where
 the real serde_json does not (`tblLayer`).
 -/
 import VarlinkVerif.Lemmas.Serde
+import VarlinkVerif.Lemmas.JsonText
 
 namespace VV
 
@@ -350,6 +351,116 @@ theorem C17_set_old_visitor_value_accepts_anything :
     setVisitorKeysOnly .valueMap 3 { rest := [("a", .int 5), ("b", .null)], pending := none } [] =
       some ["a", "b"] ∧
     decode (fun _ => 0) .set (.obj [("a", .int 5), ("b", .null)]) = none := by
+  decide
+
+/-! ### the text layer, concretely (Model/JsonText.lean, tied by suite `jsontext`) -/
+
+open JsonText in
+/-- **print then parse, every `Value`** (`serde_json::from_str::<Value> ∘ to_string`):
+    for EVERY tree `j` (mutual structural induction over `Json`; no bound on size,
+    width or string length) that is `Printable` — nesting within serde_json's
+    recursion limit (`fits 128`: at most 127 containers deep — the explicit depth
+    hypothesis), integers within [-2^63, 2^64), every object strictly sorted (a
+    `Value`) — and whose floats are faithful in the float layer (`F.fprint b` is a
+    number token of float syntax or out of integer range, and `F.fparse` gives `b`
+    back), the parser returns exactly `j`. -/
+theorem C17_text_parse_print (F : FloatLayer) (j : Json) (hF : F.Faithful j) (hj : Printable j) :
+    parse F (print F j) = some j :=
+  parseD_print F depthLimit j hj.1 hj.2 hF
+
+open JsonText in
+/-- the same for the raw tree the streaming deserializer walks through (members in
+    any order, e.g. struct members in declaration order): no sortedness needed -/
+theorem C17_text_parse_print_raw (F : FloatLayer) (j : Json) (hF : F.Faithful j) (hj : RawPrintable j) :
+    parseRaw F (print F j) = some j :=
+  parseRawD_print F depthLimit j hj hF
+
+open JsonText in
+/-- **the `ExactOn` hypothesis of `C17_roundtrip_text` is discharged** for the concrete
+    layer `jsonLayer F` (printer and parser of Model/JsonText.lean) on every tree within
+    the recursion limit whose integers are i64/u64 and whose floats are faithful. -/
+theorem C17_text_layer_exact (F : FloatLayer) (j : Json) (hF : F.Faithful j) (hj : RawPrintable j) :
+    (jsonLayer F).ExactOn j :=
+  C17_text_parse_print_raw F j hF hj
+
+open JsonText in
+/-- `C17_roundtrip_text` instantiated with the concrete text layer: `from_str(to_string(v)) = v`
+    and `from_value(from_str::<Value>(to_string(v))) = v` on `List Char` texts.  The two extra
+    hypotheses say that the written tree `encode t v` is within the parser's limits
+    (`RawPrintable`: nesting < 128, integers i64/u64) and that its floats are faithful;
+    they are left explicit (they hold for every `Request`/`Reply` whose `parameters` satisfy them:
+    the envelope adds one level of nesting). -/
+theorem C17_roundtrip_chars (cvt : Int → Nat) (F : FloatLayer) (t : Ty) (v : TVal)
+    (hw : t.wf = true) (ht : hasTy t v = true) (hc : clean t v = true)
+    (hp : RawPrintable (encode t v)) (hF : F.Faithful (encode t v)) :
+    fromText cvt (jsonLayer F) t (toText (jsonLayer F) t v) = some v ∧
+      fromTextViaValue cvt (jsonLayer F) t (toText (jsonLayer F) t v) = some v :=
+  C17_roundtrip_text cvt (jsonLayer F) t v hw ht hc (C17_text_layer_exact F _ hF hp)
+
+open JsonText in
+/-- **a serialized message never contains the NUL frame delimiter nor any raw control
+    character** (C02's framing relies on this): for every tree, provided the float texts
+    contain none (they are made of `[-+0-9.eE]`). -/
+theorem C17_print_no_nul (F : FloatLayer) (j : Json) (hF : ∀ b, ∀ c ∈ F.fprint b, 32 ≤ c.toNat) :
+    ∀ c ∈ print F j, c.toNat ≥ 32 :=
+  print_ge F hF j
+
+namespace JsonText
+/-- a float layer for examples: the one float 1.5 -/
+def exLayer : FloatLayer :=
+  { fprint := fun _ => ['1', '.', '5'], fparse := fun t => if t = ['1', '.', '5'] then some 4609434218613702656 else none }
+
+/-- `n` nested arrays -/
+def nestArr : Nat → Json
+  | 0 => .null
+  | n + 1 => .arr [nestArr n]
+end JsonText
+
+set_option maxRecDepth 8192 in
+open JsonText in
+/-- **the depth hypothesis matters**: nested arrays print at any depth (the printer has
+    no limit) but the text parses back only within the recursion limit — shown by
+    evaluation for limit 3 (`parseD … 3`: two levels are accepted, three are not), and
+    for the real limit: 127 nested arrays are `Printable`, 128 are not.  The real
+    serde_json agrees on the 127 / 128 witnesses (corpus of suite `jsontext`:
+    `to_string` writes both, `from_str` rejects the second). -/
+theorem C17_text_depth_counterexample :
+    parse exLayer (print exLayer (.arr [.arr [.arr []]])) = some (.arr [.arr [.arr []]]) ∧
+    parseD exLayer 4 (print exLayer (.arr [.arr [.arr []]])) = some (.arr [.arr [.arr []]]) ∧
+    parseD exLayer 3 (print exLayer (.arr [.arr [.arr []]])) = none ∧
+    ¬ Printable (nestArr 128) ∧ Printable (nestArr 127) := by
+  decide
+
+open JsonText in
+/-- non-vacuity: a nested value with escapes, a negative int, a u64 above i64::MAX and a
+    float is Printable and faithful … -/
+example :
+    let j : Json := .obj [("a", .arr [.int (-5), .int 18446744073709551615, .str "\"\n\\\x01é\x7f", .flt 4609434218613702656]),
+                          ("b", .obj [("", .arr []), ("k", .bool true)])]
+    Printable j ∧ exLayer.Faithful j := by
+  decide
+
+open JsonText in
+/-- … round-trips by evaluation (as `C17_text_parse_print` says) … -/
+example :
+    let j : Json := .obj [("a", .arr [.int (-5), .int 18446744073709551615, .str "\"\n\\\x01é\x7f", .flt 4609434218613702656]),
+                          ("b", .obj [("", .arr []), ("k", .bool true)])]
+    parse exLayer (print exLayer j) = some j := by
+  decide
+
+open JsonText in
+/-- … and its text holds no control character -/
+example :
+    let j : Json := .obj [("a", .arr [.int (-5), .int 18446744073709551615, .str "\"\n\\\x01é\x7f", .flt 4609434218613702656]),
+                          ("b", .obj [("", .arr []), ("k", .bool true)])]
+    (∀ c ∈ print exLayer j, c.toNat ≥ 32) := by
+  decide
+
+open JsonText in
+/-- non-vacuity of the extra hypotheses of `C17_roundtrip_chars` on a `Request` -/
+example :
+    let r : Request := { more := some true, method := "a.B", parameters := some (.obj [("x", .int 1)]) }
+    RawPrintable (encode tyRequest r.toT) ∧ exLayer.Faithful (encode tyRequest r.toT) := by
   decide
 
 end VV
